@@ -38,25 +38,31 @@ class World:
         self.close_failure = False  # bool | symbolic: closing a handle raises
         self.havoc = None  # callable(datain) -> None: the device writes into the data-in buffer
         self.handles = []
+        self.all_present = False  # every path names an existing node (used where the file system is not the subject)
 
     # ---- operating system
     def open(self, path, mode="r", buffering=-1):
         if not isinstance(path, str):
-            self.trace.append(("open", path, mode, buffering, None))
-            raise AssertionError("open() reached with a non-concrete path")
-        if not self.present.get(path, False):
+            # a symbolic path (dispatch contracts, C19): the file system is not modelled, the node exists
+            h = FakeFile(self, path, mode, buffering, 0)
+            self.handles.append(h)
+            self.trace.append(("open", path, mode, buffering, h))
+            return h
+        if not self.present.get(path, self.all_present):
             self.trace.append(("open-failed", path, mode, buffering))
             raise FileNotFoundError(2, "No such file or directory", path)
-        h = FakeFile(self, path, mode, buffering, self.inode[path])
+        h = FakeFile(self, path, mode, buffering, self.inode.get(path, 0))
         self.handles.append(h)
         self.trace.append(("open", path, mode, buffering, h))
         return h
 
     def stat(self, path):
         self.trace.append(("stat", path))
-        if not self.present.get(path, False):
+        if not isinstance(path, str):
+            return SimpleNamespace(st_ino=0)
+        if not self.present.get(path, self.all_present):
             raise FileNotFoundError(2, "No such file or directory", path)
-        return SimpleNamespace(st_ino=self.inode[path])
+        return SimpleNamespace(st_ino=self.inode.get(path, 0))
 
     def close_fails(self, handle):
         return bool(self.close_failure)
